@@ -2,7 +2,7 @@
 import re, vcheck
 
 PID = "C07"
-MODULES = ["BeffVerif.Props.C07", "BeffVerif.Props.C07Print", "BeffVerif.Props.C07Keyof", "BeffVerif.Props.C07Idx", "BeffVerif.Props.C07Names"]
+MODULES = ["BeffVerif.Props.C07", "BeffVerif.Props.C07Print", "BeffVerif.Props.C07Keyof", "BeffVerif.Props.C07Idx", "BeffVerif.Props.C07Names", "BeffVerif.Props.C07KeyofIx", "BeffVerif.Props.C07IdxIx"]
 AUDIT = "BeffVerif/Audit/C07.lean"
 HYP = {"NoObjectUnionOnLeft": "D25"}
 
